@@ -613,10 +613,24 @@ impl<Store: StorageData> DbImpl<Store> {
             self.aliases.remove_key(&mut self.storage, &old_alias)?;
         }
 
+        self.push_undo_of_alias_holder(db_id, alias)?;
         self.undo_stack.push(Command::RemoveAlias {
             alias: alias.clone(),
         });
         self.aliases.insert(&mut self.storage, alias, &db_id)
+    }
+
+    fn push_undo_of_alias_holder(&mut self, db_id: DbId, alias: &String) -> Result<(), DbError> {
+        if let Some(holder) = self.aliases.value(&self.storage, alias)?
+            && holder != db_id
+        {
+            self.undo_stack.push(Command::InsertAlias {
+                id: holder,
+                alias: alias.clone(),
+            });
+        }
+
+        Ok(())
     }
 
     pub(crate) fn insert_edge(&mut self, from: DbId, to: DbId) -> Result<DbId, DbError> {
@@ -666,6 +680,16 @@ impl<Store: StorageData> DbImpl<Store> {
     }
 
     pub(crate) fn insert_new_alias(&mut self, db_id: DbId, alias: &String) -> Result<(), DbError> {
+        if let Some(old_alias) = self.aliases.key(&self.storage, &db_id)?
+            && old_alias != *alias
+        {
+            self.undo_stack.push(Command::InsertAlias {
+                id: db_id,
+                alias: old_alias,
+            });
+        }
+
+        self.push_undo_of_alias_holder(db_id, alias)?;
         self.undo_stack.push(Command::RemoveAlias {
             alias: alias.clone(),
         });
